@@ -203,6 +203,9 @@ Inductive pres (F : Type) := PStr (s : str) | PInt (z : Z) | PBool (b : bool) | 
 Arguments AStr {F}. Arguments AInt {F}. Arguments AFloat {F}.
 Arguments PStr {F}. Arguments PInt {F}. Arguments PBool {F}. Arguments PFloat {F}. Arguments PErr {F}.
 
+Definition to_pres {F} (a : attr F) : pres F :=
+  match a with AStr s => PStr s | AInt z => PInt z | AFloat f => PFloat f end.
+
 Definition last_is (l : str) (q : N) : bool :=
   match l with [] => false | _ => N.eqb (last l 0%N) q end.
 
